@@ -38,53 +38,59 @@ Proof. intros S (s & T & F). exists s. split; [rewrite T, S; reflexivity | exact
 Lemma grow_same_r P a b c : grow P a b -> same_t b c -> grow P a c.
 Proof. intros (s & T & F) S. exists s. split; [rewrite S, T; reflexivity | exact F]. Qed.
 
-(* P only looks at the type and the tag *)
+(* P only looks at the type, the tag and the children *)
 Definition tt_only (P : token -> Prop) : Prop :=
-  forall t t', ttype t' = ttype t -> ttag t' = ttag t -> P t -> P t'.
+  forall t t', ttype t' = ttype t -> ttag t' = ttag t -> tchildren t' = tchildren t -> P t -> P t'.
 
 (* a pushed token: its type and tag are the ones given, whatever the modifier does to other fields *)
-Definition keeps_tt (f : token -> token) : Prop := forall t, ttype (f t) = ttype t /\ ttag (f t) = ttag t.
+Definition keeps_tt (f : token -> token) : Prop :=
+  forall t, ttype (f t) = ttype t /\ ttag (f t) = ttag t /\ tchildren (f t) = tchildren t.
 
 Lemma grow_push P (TT : tt_only P) st ty tag nesting f :
   keeps_tt f -> P (new_token ty tag nesting) -> grow P st (bpush st ty tag nesting f).
 Proof.
   intros K H. eexists. split; [apply bpush_tokens|]. constructor; [|constructor].
-  destruct (K (set_level (set_block (new_token ty tag nesting) true) (if nesting <? 0 then b_level st - 1 else b_level st))) as [A B].
-  eapply TT; [| |exact H]; [rewrite A; reflexivity | rewrite B; reflexivity].
+  destruct (K (set_level (set_block (new_token ty tag nesting) true) (if nesting <? 0 then b_level st - 1 else b_level st))) as (A & B & C).
+  eapply TT; [| | |exact H]; [rewrite A; reflexivity | rewrite B; reflexivity | rewrite C; reflexivity].
 Qed.
+
+(* a modifier that also sets the children: the predicate is checked on the pushed token itself *)
+Lemma grow_push_d (P : token -> Prop) st ty tag nesting f :
+  (forall lvl, P (f (set_level (set_block (new_token ty tag nesting) true) lvl))) -> grow P st (bpush st ty tag nesting f).
+Proof. intros H. eexists. split; [apply bpush_tokens|]. constructor; [apply H | constructor]. Qed.
 
 Ltac solve_keeps_tt :=
   let t := fresh "t" in
   intros t; unfold map_tok, cell_attrs;
   repeat match goal with |- context [if ?c then _ else _] => destruct c end;
-  split; reflexivity.
+  repeat split; reflexivity.
 
-(* updates in place that keep type and tag of every token *)
-Definition same_tt (x y : token) : Prop := ttype y = ttype x /\ ttag y = ttag x.
+(* updates in place that keep type, tag and children of every token *)
+Definition same_tt (x y : token) : Prop := ttype y = ttype x /\ ttag y = ttag x /\ tchildren y = tchildren x.
 
 Lemma Forall_same_tt P (TT : tt_only P) : forall a b, Forall2 same_tt a b -> Forall P a -> Forall P b.
 Proof.
   induction a as [|x a IH]; intros b F H; inversion F; subst; [constructor|].
   inversion H; subst. constructor; [|apply IH; assumption].
-  match goal with S : same_tt x ?y |- _ => destruct S as [A B]; eapply TT; [exact A | exact B | assumption] end.
+  match goal with S : same_tt x ?y |- _ => destruct S as (A & B & C); eapply TT; [exact A | exact B | exact C | assumption] end.
 Qed.
 
 Lemma Forall2_same_tt_refl l : Forall2 same_tt l l.
-Proof. induction l; constructor; [split; reflexivity | assumption]. Qed.
+Proof. induction l; constructor; [repeat split; reflexivity | assumption]. Qed.
 
 Lemma update_nth_same_tt (f : token -> token) (K : keeps_tt f) : forall n l, Forall2 same_tt l (update_nth_tok n f l).
 Proof.
   unfold update_nth_tok. induction n as [|n IH]; intros [|x l]; try constructor.
-  - destruct (K x); split; assumption.
+  - destruct (K x) as (A & B & C); repeat split; assumption.
   - apply Forall2_same_tt_refl.
-  - split; reflexivity.
+  - repeat split; reflexivity.
   - apply IH.
 Qed.
 
 Lemma Forall2_same_tt_trans a : forall b c, Forall2 same_tt a b -> Forall2 same_tt b c -> Forall2 same_tt a c.
 Proof.
   induction a as [|x a IH]; intros b c H1 H2; inversion H1; subst; inversion H2; subst; constructor.
-  - match goal with A : same_tt x ?y, B : same_tt ?y ?z |- _ => destruct A, B; split; congruence end.
+  - match goal with A : same_tt x ?y, B : same_tt ?y ?z |- _ => destruct A as (? & ? & ?), B as (? & ? & ?); repeat split; congruence end.
   - eapply IH; eassumption.
 Qed.
 
@@ -95,7 +101,7 @@ Proof.
   destruct (nth_error tokens (Z.to_nat i)) as [t|]; [|apply Forall2_same_tt_refl].
   destruct ((tlevel t =? level) && str_eqb (ttype t) [112; 97; 114; 97; 103; 114; 97; 112; 104; 95; 111; 112; 101; 110]).
   - eapply Forall2_same_tt_trans; [|apply IH].
-    eapply Forall2_same_tt_trans; apply update_nth_same_tt; intros x; split; reflexivity.
+    eapply Forall2_same_tt_trans; apply update_nth_same_tt; intros x; repeat split; reflexivity.
   - apply IH.
 Qed.
 
@@ -116,7 +122,9 @@ Qed.
 
 (* ---- the vocabulary of each rule ------------------------------------------------------------ *)
 
-Definition is (ty tag : str) (t : token) : Prop := ttype t = ty /\ ttag t = tag.
+(* (type, tag) as given, and no children yet: None, or the empty list of a fresh inline token *)
+Definition is (ty tag : str) (t : token) : Prop :=
+  ttype t = ty /\ ttag t = tag /\ (tchildren t = None \/ tchildren t = Some []).
 
 Definition P_hr (t : token) : Prop := is [104; 114] [104; 114] t.
 Definition P_code (t : token) : Prop := is [99; 111; 100; 101; 95; 98; 108; 111; 99; 107] [99; 111; 100; 101] t.
@@ -153,9 +161,9 @@ Definition P_rule (name : str) (t : token) : Prop :=
 Definition P_all (t : token) : Prop := exists n, In n (c_rules cfg) /\ P_rule n t.
 
 Lemma is_tt ty tag : tt_only (is ty tag).
-Proof. intros t t' A B [C D]. split; congruence. Qed.
+Proof. intros t t' A B C (D & E & G). unfold is. rewrite A, B, C. repeat split; assumption. Qed.
 
-Ltac tt_tac := intros t t' A B H; unfold is in *; rewrite ?A, ?B; exact H.
+Ltac tt_tac := intros t t' A B C H; unfold is in *; rewrite ?A, ?B, ?C; exact H.
 
 Lemma tt_hr : tt_only P_hr. Proof. unfold P_hr. tt_tac. Qed.
 Lemma tt_code : tt_only P_code. Proof. unfold P_code. tt_tac. Qed.
@@ -173,14 +181,14 @@ Proof.
   unfold P_rule.
   repeat match goal with |- tt_only (fun t => if ?c then _ else _) => destruct c end;
     first [apply tt_table | apply tt_code | apply tt_fence | apply tt_blockquote | apply tt_hr | apply tt_list
-          | apply tt_reference | apply tt_html | apply tt_heading | apply tt_paragraph | (intros ? ? ? ? []) ].
+          | apply tt_reference | apply tt_html | apply tt_heading | apply tt_paragraph | (intros ? ? ? ? ? []) ].
 Qed.
 
 Lemma tt_all : tt_only P_all.
-Proof. intros t t' A B (n & I & H). exists n. split; [exact I | eapply tt_rule; eassumption]. Qed.
+Proof. intros t t' A B C (n & I & H). exists n. split; [exact I | eapply tt_rule; eassumption]. Qed.
 
 Lemma tt_or P Q : tt_only P -> tt_only Q -> tt_only (fun t => P t \/ Q t).
-Proof. intros TP TQ t t' A B [H|H]; [left; eapply TP | right; eapply TQ]; eassumption. Qed.
+Proof. intros TP TQ t t' A B C [H|H]; [left; eapply TP | right; eapply TQ]; eassumption. Qed.
 
 (* contracts of the callbacks *)
 Definition rec_g (rec : rec_t) : Prop := forall s a b s', rec s a b = Ok s' -> grow P_all s s'.
@@ -193,12 +201,20 @@ Lemma grow_push' P (TT : tt_only P) st s ty tag nesting f :
 Proof. intros G K H. eapply grow_trans; [exact G | apply grow_push; assumption]. Qed.
 
 (* solve a vocabulary goal  P (new_token ty tag n)  that is a disjunction of [is ty tag] *)
-Ltac pgoal := solve [ split; reflexivity | left; pgoal | right; pgoal ].
+Ltac isgoal := unfold is; split; [reflexivity | split; [reflexivity | first [left; reflexivity | right; reflexivity]]].
+Ltac pgoal := solve [ isgoal | left; pgoal | right; pgoal ].
+
+Lemma grow_push'_d (P : token -> Prop) st s ty tag nesting f :
+  grow P st s -> (forall lvl, P (f (set_level (set_block (new_token ty tag nesting) true) lvl))) ->
+  grow P st (bpush s ty tag nesting f).
+Proof. intros G H. eapply grow_trans; [exact G | apply grow_push_d; exact H]. Qed.
 
 (* peel the pushes / field updates off the final state, down to [base] *)
 Ltac grow_chain TT pg base :=
   lazymatch goal with
-  | |- grow _ _ (bpush _ _ _ _ _) => apply (grow_push' _ TT); [grow_chain TT pg base | solve_keeps_tt | pg]
+  | |- grow _ _ (bpush _ _ _ _ _) =>
+      first [ apply (grow_push' _ TT); [grow_chain TT pg base | solve_keeps_tt | pg]
+            | apply grow_push'_d; [grow_chain TT pg base | let lvl := fresh "lvl" in intros lvl; pg] ]
   | |- grow _ _ (push_inline _ _ _ _) => unfold push_inline; grow_chain TT pg base
   | |- grow _ _ (st_parent ?s _) => apply (grow_same_r _ _ s); [grow_chain TT pg base | reflexivity]
   | |- grow _ _ (st_line ?s _) => apply (grow_same_r _ _ s); [grow_chain TT pg base | reflexivity]
@@ -232,7 +248,7 @@ Proof.
   do 3 rstep H. rstep H; [rfinish H; apply grow_refl|].
   destruct (c_html cfg) eqn:HT; cbn [negb] in H; [|rfinish H; apply grow_refl].
   repeat rstep H; rfinish H; try apply grow_refl.
-  all: grow_chain tt_html ltac:(unfold P_html; split; [exact HT | split; reflexivity]) from_refl.
+  all: grow_chain tt_html ltac:(unfold P_html; split; [exact HT | isgoal]) from_refl.
 Qed.
 
 Lemma heading_level_bounds : forall fuel src pos maximum level p l,
@@ -248,8 +264,8 @@ Proof.
 Qed.
 
 Ltac pg_heading level :=
-  unfold P_heading; first [ left; split; reflexivity
-                          | right; exists level; split; [lia | first [left; split; reflexivity | right; split; reflexivity]] ].
+  unfold P_heading; first [ left; isgoal
+                          | right; exists level; split; [lia | first [left; isgoal | right; isgoal]] ].
 
 Lemma r_heading_g st sl el silent b st' : r_heading cfg st sl el silent = Ok (b, st') -> grow P_heading st st'.
 Proof.
@@ -337,7 +353,7 @@ Proof.
   all: destruct (c_inline_defs cfg).
   all: try (eapply grow_same_r; [exact PS' | reflexivity]).
   all: match goal with |- grow _ _ (st_parent (?s <| b_env := _ |>) _) => apply (grow_same_r _ _ s); [|reflexivity] end.
-  all: apply (grow_push' _ (tt_or _ _ tt_reference tt_all)); [eapply grow_same_r; [exact PS' | reflexivity] | solve_keeps_tt | left; split; reflexivity].
+  all: apply (grow_push' _ (tt_or _ _ tt_reference tt_all)); [eapply grow_same_r; [exact PS' | reflexivity] | solve_keeps_tt | left; unfold P_reference; isgoal].
 Qed.
 
 (* ---- containers ---- *)
@@ -353,7 +369,7 @@ Lemma grow_set_map P (TT : tt_only P) st s X idx g :
   grow P st s -> (length (b_tokens st) <= idx)%nat -> b_tokens X = set_map_at (b_tokens s) idx g -> grow P st X.
 Proof.
   intros G Hk TX. eapply (grow_retag P TT st s X G); rewrite TX.
-  - unfold set_map_at. apply update_nth_same_tt. intros t; split; reflexivity.
+  - unfold set_map_at. apply update_nth_same_tt. intros t; repeat split; reflexivity.
   - destruct (set_map_at_shape (length (b_tokens st)) (b_tokens s) idx g Hk) as [Pre _]. exact Pre.
 Qed.
 
@@ -363,7 +379,7 @@ Lemma grow_set_map_tight P (TT : tt_only P) st s X idx g fuel i len0 lvl :
 Proof.
   intros G Hk Hi Hi0 TX. eapply (grow_retag P TT st s X G); rewrite TX.
   - eapply Forall2_same_tt_trans; [|apply mark_tight_same_tt].
-    unfold set_map_at. apply update_nth_same_tt. intros t; split; reflexivity.
+    unfold set_map_at. apply update_nth_same_tt. intros t; repeat split; reflexivity.
   - destruct (set_map_at_shape (length (b_tokens st)) (b_tokens s) idx g Hk) as [Pre1 _].
     destruct (mark_tight_shape (length (b_tokens st)) fuel (set_map_at (b_tokens s) idx g) i len0 lvl Hi Hi0) as [Pre2 _].
     congruence.
@@ -791,7 +807,7 @@ Proof.
             repeat match goal with H : _ /\ _ |- _ => destruct H end;
             match goal with A : ttype ?x = _, B : ttag ?x = _ |- _ => rewrite A, B; split; [unfold block_tags; cbn [In]; tauto | intros X; first [discriminate X | assumption]] end).
   (* heading / lheading *)
-  all: destruct H as [[A B] | (l & Hl & [[A B] | [A B]])]; rewrite A, B;
+  all: destruct H as [(A & B & _) | (l & Hl & [(A & B & _) | (A & B & _)])]; rewrite A, B;
        (split; [|intros X; discriminate X]).
   all: try (unfold block_tags; cbn [In]; tauto).
   all: assert (HL : l = 1 \/ l = 2 \/ l = 3 \/ l = 4 \/ l = 5 \/ l = 6) by lia;
